@@ -19,6 +19,10 @@ macro "py_eval" : tactic =>
 
 @[simp] theorem truthy_bool (x : Bool) : (PV.bool x).truthy = x := rfl
 
+/-- a package / resource object that only iterates (no failing tail) -/
+theorem iterLazy_pkg (rs : List PV) : iterLazy (.dict [(.str "__iter__", .list rs)]) = .ok (rs, Option.none) := by
+  simp [iterLazy, PV.lookup, PV.beq, iterOf, Except.map]
+
 theorem elem_str (x : String) (l : List String) : PV.elem (.str x) (l.map PV.str) = l.contains x := by
   induction l with
   | nil => simp [PV.elem]
